@@ -51,3 +51,51 @@ func TestBinaryRenderRef(t *testing.T) {
 	}
 	fmt.Println("ion-go error classes on valid binary:", ionErr)
 }
+
+func TestTextRenderRef(t *testing.T) {
+	bad := 0
+	unsure := map[string]int{}
+	ionErr := map[string]int{}
+	for i := 0; i < 20000; i++ {
+		r := prng.New(prng.Mix(11, uint64(i)))
+		o := gen.Swarm(r)
+		doc := gen.Sanitize(gen.Doc(r, o, 6))
+		out := render.Text(render.Values(doc), render.SwarmText(r.Fork()))
+		res, err := ref.DecodeText(out.Bytes, ref.Options{})
+		if err != nil {
+			if err.Unsure {
+				unsure[err.Rule]++
+				continue
+			}
+			bad++
+			if bad < 10 {
+				t.Errorf("case %d: ref error %v\n doc=%v\n text=%q", i, err, doc, out.Bytes)
+			}
+			continue
+		}
+		if !model.EqualAll(res.Values, doc) {
+			bad++
+			if bad < 10 {
+				t.Errorf("case %d: ref mismatch\n doc=%v\n got=%v\n text=%q", i, doc, res.Values, out.Bytes)
+			}
+			continue
+		}
+		oc := drive.RunRead(drive.ReadCase{Data: out.Bytes, Plan: sim.ReadPlan{}, Prog: drive.Full})
+		if oc.Err != "" || oc.Panic != "" {
+			k := oc.Err
+			if oc.Panic != "" {
+				k = "PANIC " + oc.Panic
+			}
+			k = drive.PanicClass(k)
+			ionErr[k]++
+			if ionErr[k] == 1 {
+				fmt.Printf("ion-go rejects: %s\n text=%q\n", k, out.Bytes)
+			}
+		}
+	}
+	fmt.Println("ref unsure:", unsure)
+	fmt.Println("ion-go error classes on valid text:", len(ionErr))
+	for k, v := range ionErr {
+		fmt.Println("  ", v, k)
+	}
+}
